@@ -32,7 +32,7 @@ ASSUMPTIONS = ['secure group types are chosen with an underlying field larger th
 
 
 def budget(tier):
-    return dict(shards=16, examples=25 if tier == 'quick' else 400)
+    return dict(shards=16, examples=50 if tier == 'quick' else 400)
 
 
 TYPES = [['int', 8], ['int', 16], ['fxp', 16, 8], ['fld', 101], ['fld', 2**61 - 1], ['fld2', 8],
